@@ -27,6 +27,7 @@ def run_pool(program: dict, chooser, post_yields=False, max_steps=4000):
     accepted, ended = set(), set()
     replies = {}
     gates = {}
+    gates_open = []
     submitting: list = []
 
     def ev(e, op="", task=0, who="", res="", flag=False):
@@ -71,6 +72,8 @@ def run_pool(program: dict, chooser, post_yields=False, max_steps=4000):
             if tid in program.get("gated_tasks", ()):
                 gate = em.Event()
                 gates[tid] = gate
+                if gates_open:
+                    gate.set()
             ev("call", "spawn", tid, sp)
             try:
                 r = pool.spawn(make_task(tid, raises, gate))
@@ -130,6 +133,12 @@ def run_pool(program: dict, chooser, post_yields=False, max_steps=4000):
         try:
             res = pool.waitall(timeout=5.0 if timed else None)
             ev("ret", "waitall", who=w, res="true" if res else "false")
+            if timed and program.get("timeout_opens_gates"):
+                # the timed waiter is back (typically: it gave up while a gated task was still running); now the task may finish:
+                # the other waiters must wake up.  (Gates of tasks spawned later are opened by the spawner below.)
+                gates_open.append(True)
+                for g in gates.values():
+                    g.set()
         except BaseException as e:  # noqa: BLE001
             if type(e).__name__ == "SimAbort":
                 raise
